@@ -11,14 +11,19 @@ from ..core import Ctx, Report
 LEVEL = "model_checking"
 
 
+def NOT_STATS(c: str) -> bool:
+    """the logging-statistics clauses of the collector traces belong to C19"""
+    return not c.startswith("Stats")
+
+
 def run(ctx: Ctx) -> Report:
     rep = Report()
     ofs.run_mc(ctx, rep)
-    ofs.run_c2s(ctx, rep, "C05", ctx.pick(12, 60), ctx.pick(30, 120))
+    ofs.run_c2s(ctx, rep, "C05", ctx.pick(12, 60), ctx.pick(30, 120), only=NOT_STATS)
     rep.assumptions += ["rows are read back from the ring at (position - k) % capacity; ring mechanics themselves are C06",
                         "capacity per stream >= rows written between two snapshots in the recorded configurations"]
     return rep
 
 
 def replay(ctx: Ctx, driver: str, case: dict) -> Report:
-    return ofs.replay(ctx, "C05", case)
+    return ofs.replay(ctx, "C05", case, only=NOT_STATS)
